@@ -32,6 +32,8 @@ def parseOp (s : String) : Option Op :=
   -- `argmismatch` line (an `unexpected-line` verdict) when they arrive wrong; the model does not see them
   | ["coa", f, d, t] => do some (.co (← f.toNat?) (← d.toInt?) t false)
   | ["coafp", f, d, t] => do some (.co (← f.toNat?) (← d.toInt?) t true)
+  -- `cofpb`: function pointer with a bound first argument `(: fired, f :)`; for the model a function-pointer call_out
+  | ["cofpb", f, d, t] => do some (.co (← f.toNat?) (← d.toInt?) t true)
   | ["rmh", t] => some (.rmh t)
   | ["rmn", f] => do some (.rmn (← f.toNat?))
   | ["fh", t] => some (.fh t)
